@@ -514,9 +514,19 @@ def bools(v):
 def tlc_parallel(jobs):
     """jobs: [(module, cfg, kwargs)] -> results, the TLC processes running side by side"""
     from concurrent.futures import ThreadPoolExecutor
+
+    def attempt(m, c, kw):
+        try:
+            return run_tlc(m, c, **kw)
+        except MachineryError as e:
+            return e
+
     with ThreadPoolExecutor(max_workers=len(jobs)) as ex:
-        futs = [ex.submit(run_tlc, m, c, **kw) for m, c, kw in jobs]
-        return [f.result() for f in futs]
+        futs = [ex.submit(attempt, m, c, kw) for m, c, kw in jobs]
+        res = [f.result() for f in futs]
+    # a run that failed while several JVMs shared a busy machine (no memory, no threads) is run once
+    # more, alone; a failure of the specification itself fails again and is raised
+    return [run_tlc(m, c, **kw) if isinstance(r, MachineryError) else r for (m, c, kw), r in zip(jobs, res)]
 
 
 def load_universe(run, cfg, label, res=None):
@@ -559,7 +569,10 @@ def validate(run, events, label):
         with open(path, "w") as f:
             for e in events:
                 f.write(json.dumps(e) + "\n")
-        res = run_tlc("Val_Trace", workers=1, env={"TRACE_FILE": path}, timeout=3000)
+        try:
+            res = run_tlc("Val_Trace", workers=1, env={"TRACE_FILE": path}, timeout=3000)
+        except MachineryError:
+            res = run_tlc("Val_Trace", workers=1, env={"TRACE_FILE": path}, timeout=3000)     # once more
     finally:
         try:
             os.remove(path)
